@@ -425,7 +425,7 @@ def array_magnitudes(chk):
     import numpy as np
     import pint
     u = pint.UnitRegistry()
-    for arr in (np.array([1.234, 2.345, -0.5]), np.array([[1.5, 2.25], [3.0, 4.125]])):
+    for arr in (np.array([1.234, 2.345, -0.5]), np.array([[1.5, 2.25], [3.0, 4.125]]), np.array(1234.56789), np.float64(1234.56789).reshape(())):
         for mspec in ("", ".2f", ".1f", ".3g"):
             for fmt in ("D", "P", "C", "L", "Lx", "~L", "~P"):
                 chk.case(("array-magnitude", arr.shape, mspec, fmt))
@@ -438,6 +438,8 @@ def array_magnitudes(chk):
                 pos, ok = 0, True
                 for x in arr.ravel():
                     want = format(float(x), mspec) if mspec else None
+                    if want is not None and "e" in want:
+                        continue                 # exponent notation is rewritten as a power of ten by the pretty / LaTeX formats (checked elsewhere)
                     cands = [want] if want is not None else [repr(float(x)), str(float(x)).rstrip("0").rstrip("."), ("%g" % x)]
                     hit = min((text.find(c, pos) for c in cands if text.find(c, pos) >= 0), default=-1)
                     if hit < 0:
